@@ -35,6 +35,22 @@ checks.update({
  "C17": dict(text="Counters and callbacks: Pending, Active, Reader.Available and the Flushed/ACKed callback totals are judged by PQTrace.tla at every observation point of producer/consumer/reopen histories incl. failed flushes on full files.", ref="6 C17", note=PQ_NOTE, tech=PQ_TECH),
 })
 
+checks.update({
+ "C02": dict(text="Snapshot isolation: the interleavings are the maximal paths of the LockReplay state graph (TLC as generator: every transition of readers x writers incl. all commit steps, blocked and woken acquisitions); each path is replayed on a real File with real data behind goroutine gates, every active reader reads (first touches at every point of the path) its snapshot after every step; TxTrace.tla judges every read against the snapshot taken at BeginR, the exclusivity of the in-memory switch and the reader count. A race-detector build runs a free reader/writer stress.", ref="6 C02",
+             note=TX_NOTE + " Interleavings are bounded by the LockReplay configuration (2 readers, 2 writers, 1 transaction each in the quick tier).",
+             tech="TLA+ specification + TLC-generated interleavings (transition cover of LockReplay) replayed on the real code with gated goroutines; TLC trace validation with TxTrace; Go race detector"),
+ "C14": dict(text="Max-size change on open: histories in which the file is reopened with FlagUpdMaxSize and a larger / smaller / unbounded limit (with and without Prealloc, overflow transactions, live pages beyond the new limit) are judged by TxTrace.tla: contents and root unchanged (ResizeKeepsState, ReopenStable, every read), limit persisted and in force, lock idle after Open, Conservation with the new limit, extent bound after shrinking, later plain reopen equal.", ref="6 C14"),
+ "C15": dict(text="Misuse: TLC enumerates every transition of Api.tla (lifecycle states of Tx, Page, Reader, Writer, ACK x public methods); ApiReplay prints one path per transition; each path is executed on the real code (recover + watchdog per call, state digests before/after) and ApiTrace.tla judges the observed error kind against Api.tla!Expect and MisuseChangesNothing.", ref="6 C15",
+             note="The outcome table Api.tla!Expect transcribes the documentation of the public methods; cells on which the documentation is silent are 'unspecified' (only no panic / no hang / no change is required); calls that would self-deadlock by design (committing while the same goroutine holds a read transaction) are not exercised.",
+             tech="TLA+ specification (Api.tla) + TLC state graph turned into one implementation test per transition; TLC trace validation with ApiTrace"),
+ "C16": dict(text="Header choice: Header.tla (slot states over a txid ring incl. wrap-around) is checked exhaustively; every single-bit flip (quick: all bits of magic/version/page size, a third of the rest; thorough: all), every byte-prefix tear, zeroed / garbage / multi-byte damage and a byte copy of the other header, for either slot and for both, on committed histories with either slot active and txids at the 2^64 wrap, is applied to the real file image; the real Open result and the logical state read back are judged by HeaderTrace.tla against validity and age computed by an independent decoder.", ref="6 C16",
+             note="Validity (magic, version, FNV-1a over the 80 bytes before the checksum) and relative age (serial number arithmetic) are computed by the harness' independent decoder; checksum arithmetic itself is enumerated on real bytes, not modelled in TLA+.",
+             tech="TLA+ specification (Header.tla) + TLC exhaustive check; concrete corruption enumeration on real bytes judged by TLC (HeaderTrace)"),
+ "C18": dict(text="Path lock: PathLock.tla (3 handles; plain / read-only / waiting opens, failing opens for three causes, close) is checked exhaustively; PathLockReplay prints one path per transition (ghost history so that e.g. an open after 'a waiter acquired after the holder closed' is covered); every path is executed with the real Open/Close on the real file system and PathLockTrace.tla judges every result (ok / lock error / other error / blocked / returned).", ref="6 C18",
+             note="Runs on the sandbox' real file system and flock implementation; a waiting open that the model says is blocked is given 40 ms to (wrongly) return.",
+             tech="TLA+ specification (PathLock.tla) + TLC transition cover replayed on the real code and OS; TLC trace validation"),
+})
+
 out = {
  "version": 1,
  "setup_cmd": "cd /verif/harness && GOFLAGS=-mod=mod GOPROXY=off GOSUMDB=off GOTOOLCHAIN=local go build -tags verif -o /verif/bin/txv ./cmd/txv",
